@@ -49,6 +49,7 @@ class ObInstance:
     note: str = ""
     smt2: Optional[str] = None
     props: Tuple[str, ...] = ()
+    xcheck: str = ""  # thorough tier: what cvc5 said about an obligation z3 discharged ("agree" / "unknown" / "DISAGREE")
 
 
 _COVERED: set = set()
@@ -96,6 +97,19 @@ def cvc5_check(smt2: str):
     except Exception:
         return None
     return None
+
+
+XCHECK_EVERY = int(_os0.environ.get("PYVC_XCHECK_EVERY", "7"))
+
+
+def _want_xcheck(name: str, labels) -> bool:
+    """thorough tier: a deterministic sample (about one instance in XCHECK_EVERY) of the
+    obligations z3 discharges is re-asked of cvc5"""
+    if _os0.environ.get("PYVC_TIER", "quick") != "thorough":
+        return False
+    import zlib
+
+    return zlib.crc32((name + "|" + " ".join(labels)).encode()) % XCHECK_EVERY == 0
 
 
 def has_seq(e) -> bool:
@@ -372,9 +386,16 @@ class Ctx:
             r0 = self.fast.check()
             self.fast.pop()
             if r0 == z3.unsat:
+                xc = ""
+                if _want_xcheck(name, self.labels):
+                    self.fast.push()
+                    self.fast.add(z3.Not(cond))
+                    r2 = cvc5_check(self.fast.to_smt2())
+                    self.fast.pop()
+                    xc = "agree" if r2 == z3.unsat else ("DISAGREE" if r2 == z3.sat else "unknown")
                 ms = (time.perf_counter() - t0) * 1000
                 self.solver_ms += ms
-                self.obligations.append(ObInstance(name=name, clause=clause, where=where, status="unsat", path=tuple(self.labels), ms=ms, pc_size=self.n_assumed, note=note, props=tuple(props)))
+                self.obligations.append(ObInstance(name=name, clause=clause, where=where, status="unsat", path=tuple(self.labels), ms=ms, pc_size=self.n_assumed, note=note, props=tuple(props), xcheck=xc))
                 if assume_after:
                     self.assume(cond, "after prove")
                 return "unsat"
@@ -416,6 +437,10 @@ class Ctx:
                 smt2 = self.solver.to_smt2()
             except Exception:
                 smt2 = None
+        xc = ""
+        if r == z3.unsat and backend == "z3" and _want_xcheck(name, self.labels):
+            r2 = cvc5_check(self.solver.to_smt2())
+            xc = "agree" if r2 == z3.unsat else ("DISAGREE" if r2 == z3.sat else "unknown")
         import os as _os2
 
         if _os2.environ.get("PYVC_DUMP_SLOW") and (time.perf_counter() - t0) > 1.5:
@@ -435,6 +460,7 @@ class Ctx:
                 ms=ms,
                 model=model,
                 backend=backend,
+                xcheck=xc,
                 pc_size=self.n_assumed,
                 note=note,
                 smt2=smt2 if status != "unsat" else None,
